@@ -1,160 +1,18 @@
-import PsVerif.Model.Init
-import PsVerif.Model.T1Num
-import PsVerif.Generated.Consts
-import PsVerif.Generated.SystemDict
-import PsVerif.Generated.T1Ops
-import PsVerif.Generated.Structure
-import PsVerif.Generated.Template
+import PsVerif.Props.Ties.Limits
+import PsVerif.Props.Ties.CMap
+import PsVerif.Props.Ties.SystemDict
+import PsVerif.Props.Ties.Cipher
+import PsVerif.Props.Ties.T1
+import PsVerif.Props.Ties.PFB
+import PsVerif.Props.Ties.Determinism
+import PsVerif.Props.Ties.Shared
+import PsVerif.Props.Ties.Errors
 /-!
 # Ties between the facts regenerated from the Go source (`Generated/*`, written by
 `tools/factgen` on every run) and the hand-written model.
 
-Each theorem is closed by `rfl`/`decide`: when a constant, table or structural fact changes
-in the Go source, the generated side changes and the theorem no longer checks.
+Each theorem (in `Ties/*.lean`, one module per group of properties so that a changed fact only
+breaks the checks of the properties it concerns) is closed by `rfl`/`decide`: when a constant,
+table or structural fact changes in the Go source, the generated side changes and the theorem
+no longer checks.
 -/
-namespace PsVerif.Props.Ties
-open PsVerif.Model PsVerif.Generated
-
-/-! ## interpreter limits (C01, C02, C11) -/
-theorem interp_consts :
-    Consts.root_maxArraySize = some maxArraySize ∧ Consts.root_maxDictSize = some maxDictSize ∧
-    Consts.root_maxStringSize = some maxStringSize ∧
-    Consts.root_maxDictStackDepth = some (maxDictStackDepth : Int) ∧
-    Consts.root_maxOperandStackDepth = some (maxOperandStackDepth : Int) ∧
-    Consts.root_maxBindDepth = some (maxBindDepth : Int) := by decide
-
-/-- the literal tests in `executeOne`: `execStackDepth >= 100`, `level < 5`, `len(Stack) > 500` -/
-theorem interp_literal_tests :
-    Consts.root_execDepthTests = [">= 100"] ∧ Consts.root_errorLevelTests = ["< 5"] ∧
-    Consts.root_stackDepthTests = ["> 500"] ∧ Consts.root_internaldictTests = ["!= 1183615869"] := by
-  refine ⟨rfl, rfl, rfl, rfl⟩
-
-theorem interp_literal_model : execDepthLimit = 100 ∧ errorNestingLimit = 5 ∧ maxOperandStackDepth = 500 ∧
-    internalDictPasscode = 1183615869 := by decide
-
-/-- CMap blocks: `n < 0 || n > 100` in all seven `begin…` operators (C07) -/
-theorem cmap_block_tests : Consts.root_cmapBlockTests = ["< 0", "> 100"] ∧ cmapBlockLimit = 100 := ⟨rfl, rfl⟩
-
-/-! ## system dictionary (C02, C18) -/
-
-def genKeys (kind : String) : List String :=
-  (SystemDict.entries.filter (fun e => e.2.1 == kind)).map (·.1)
-
-/-- the operators bound in `makeSystemDict` are exactly the ones the model implements -/
-theorem systemdict_operators :
-    (SystemDict.entries.filter (fun e => e.2.1 == "builtin")).map (·.1) =
-      systemOperators := by decide
-
-theorem systemdict_others :
-    (SystemDict.entries.filter (fun e => e.2.1 != "builtin")).map (·.1) =
-      systemNonOperators := by decide
-
-theorem cidinit_keys : SystemDict.cidInitKeys = cidInitKeys := by decide
-theorem error_names : SystemDict.allErrors = allErrors := by decide
-
-/-- how `NewInterpreter` obtains the resource dictionaries: fresh literals, and the CIDInit
-procedure set is cloned, not shared (C18) -/
-theorem resource_init :
-    SystemDict.resourceInit =
-      ["Font := fontDirectory", "CIDFont := ?", "CMap := cmapDirectory", "ProcSet := ?",
-       "CIDInit := maps.Clone(cidInit)"] := rfl   -- `?` = a composite literal (fresh dictionary)
-
-/-! ## ciphers (C05, C06, C08) -/
-theorem cipher_consts :
-    Consts.root_eexecR = some 55665 ∧ Consts.root_eexecC1 = some 52845 ∧ Consts.root_eexecC2 = some 22719 ∧
-    Consts.root_eexecN = some 4 ∧ Consts.t1_eexecR0 = some 55665 ∧ Consts.t1_eexecC1 = some 52845 ∧
-    Consts.t1_eexecC2 = some 22719 ∧ Consts.t1_obfuscateR = some 4330 ∧ Consts.t1_deobfuscateR = some 4330 := by
-  decide
-
-theorem cipher_model : Cipher.eexecR = 55665 ∧ Cipher.c1 = 52845 ∧ Cipher.c2 = 22719 ∧ Cipher.charstringR = 4330 := by
-  decide
-
-/-! ## charstring number formats and opcodes (C20, C06, C08) -/
-theorem appendInt_bounds :
-    T1Ops.appendIntTests = [">= -107", "<= 107", ">= 108", "<= 1131", ">= -1131", "<= -108"] := rfl
-
-theorem decode_bounds :
-    T1Ops.decodeOpTests = [">= 32", "<= 246", ">= 247", "<= 250", ">= 251", "<= 254", "== 255", "== 12"] := rfl
-
-theorem approx_max_q : Consts.t1_appendNumberQTests = ["<= 107"] := rfl
-
-theorem t1_limits : Consts.t1_maxStack = some 24 ∧ Consts.t1_callDepthTests = ["> 0", "> 10"] ∧
-    Consts.t1_readShortCipherTests = ["< 4"] := ⟨rfl, rfl, rfl⟩
-
-theorem t1_opcodes : T1Ops.ops =
-    [("t1callothersubr", 3088), ("t1callsubr", 10), ("t1closepath", 9), ("t1div", 3084), ("t1dotsection", 3072),
-     ("t1endchar", 14), ("t1hlineto", 6), ("t1hmoveto", 22), ("t1hsbw", 13), ("t1hstem", 1), ("t1hstem3", 3074),
-     ("t1hvcurveto", 31), ("t1pop", 3089), ("t1return", 11), ("t1rlineto", 5), ("t1rmoveto", 21),
-     ("t1rrcurveto", 8), ("t1sbw", 3079), ("t1seac", 3078), ("t1setcurrentpoint", 3105), ("t1vhcurveto", 30),
-     ("t1vlineto", 7), ("t1vmoveto", 4), ("t1vstem", 3), ("t1vstem3", 3073)] := rfl
-
-/-! ## PFB header (C14, C01) -/
-theorem pfb_header_tests : Consts.pfb_headerTests = ["== 128", "== 3", "!= 128", "== 0", "> 3"] := rfl
-
-/-! ## determinism (C17): every place where a Go map is iterated, and no clock/random/address use -/
-theorem map_sites : Structure.mapSites =
-    [(".", "NewInterpreter", "maps.Clone cidInit"),
-     (".", "ReadCMap", "maps.Keys intp.CMapDirectory"),
-     (".", "bCopy", "range a"),
-     (".", "bForall", "range obj"),
-     ("afm", "Metrics.FontBBoxPDF", "range f.Glyphs"),
-     ("afm", "Metrics.GlyphList", "maps.Keys f.Glyphs"),
-     ("afm", "Metrics.Write", "maps.Keys g.Ligatures"),
-     ("type1", "Font.FontBBox", "range f.Glyphs"),
-     ("type1", "Font.FontBBoxPDF", "range f.Glyphs"),
-     ("type1", "Font.GlyphList", "maps.Keys f.Glyphs"),
-     ("type1", "Font.WidthsMapPDF", "range f.Glyphs"),
-     ("type1", "Font.encodeCharstrings", "range f.Glyphs"),
-     ("type1", "Read", "maps.Keys cs"),
-     ("type1", "Read", "range intp.FontDirectory")] := rfl
-
-theorem no_clock_no_addr : Structure.clockSites = [] := rfl
-
-/-! ## shared state (C18) -/
-theorem pkg_ref_vars : Structure.pkgRefVars =
-    [(".", "ErrExecutionLimitExceeded", "*postscript.postScriptError"),
-     (".", "allErrors", "[]postscript.Name"),
-     (".", "cidInit", "postscript.Dict"),
-     (".", "radixNumberRe", "*regexp.Regexp"),
-     (".", "realNumberRe", "*regexp.Regexp"),
-     ("psenc", "StandardEncoding", "[256]string"),
-     ("psenc", "StandardEncodingRev", "map[string]byte"),
-     ("type1", "dateFormats", "[]string"),
-     ("type1", "defaultWriterOptions", "*type1.WriterOptions"),
-     ("type1", "tmpl", "*template.Template"),
-     ("type1/names", "compat", "map[rune][]rune"),
-     ("type1/names", "glyph", "*names.glyphMap")] := rfl
-
-/-- no function writes to or through a package-level variable … -/
-theorem pkg_var_writes : Structure.pkgVarWrites = [] := rfl
-
-/-- … except the lazily filled glyph-name tables, whose every write happens in a method
-that takes the lock or is only called from methods that do -/
-theorem names_lock_protocol : Structure.namesRecvWrites =
-    [("type1/names", "glyphMap.encode", "calls=getEncode locked=false"),
-     ("type1/names", "glyphMap.getEncode", "calls=Lock,Unlock locked=true"),
-     ("type1/names", "glyphMap.getEncode", "runeToName locked=true"),
-     ("type1/names", "glyphMap.getFile", "calls= locked=false"),
-     ("type1/names", "glyphMap.getFile", "nameToRune locked=false"),
-     ("type1/names", "glyphMap.getFile", "nameToSeq locked=false"),
-     ("type1/names", "glyphMap.lookup", "calls=Lock,Unlock,getFile locked=true"),
-     ("type1/names", "glyphMap.lookupSeq", "calls=Lock,Unlock,getFile locked=true")] := rfl
-
-/-! ## error propagation (C13): the only calls whose error result is not bound -/
-theorem dropped_errors : Structure.droppedErrors =
-    [(".", "scanner.SkipByte", "s.Next"),
-     (".", "scanner.SkipN", "s.Next"),
-     (".", "scanner.SkipOptionalByte", "s.Next"),
-     (".", "scanner.readCommentKey", "buf.WriteByte"),
-     (".", "scanner.readCommentValue", "buf.WriteByte"),
-     (".", "scanner.readCommentValue", "buf.WriteByte"),
-     ("type1", "writeEncoding", "b.WriteString"),
-     ("type1", "writeEncoding", "b.WriteString"),
-     ("type1", "writeEncoding", "b.WriteString"),
-     ("type1", "writeEncoding", "fmt.Fprintf"),
-     ("type1/names", "glyphMap.getEncode", "glyphData.Open (blank)"),
-     ("type1/names", "glyphMap.getEncode", "strconv.ParseInt (blank)"),
-     ("type1/names", "glyphMap.getFile", "strconv.ParseInt (blank)"),
-     ("type1/names", "glyphMap.getFile", "strconv.ParseInt (blank)")] := rfl
-
-end PsVerif.Props.Ties
